@@ -1238,3 +1238,4 @@ REFACTORS += [
                 (RRD, '                    if frame_type.is_first_frame_of_record() {', '                    if frame_type.starts_entry() {'),
                 ]),
 ]
+
